@@ -95,31 +95,19 @@ Proof.
   apply enumerate_nth in Hin. eapply nth_error_In; eauto.
 Qed.
 
-Lemma cast_float c : cast false c = c.
-Proof. reflexivity. Qed.
-
-Lemma cast_int_integral z : cast true (Some (inject_Z z)) = Some (inject_Z z).
-Proof. simpl. unfold qtrunc, inject_Z. simpl. rewrite Z.quot_1_r. reflexivity. Qed.
-
-Lemma cast_masked b : cast b None = None.
-Proof. destruct b; reflexivity. Qed.
-
 Theorem unaffected_vars f dfs r v :
   impl_apply f dfs = Ok r -> In v (fvars f) ->
   (forall d, In d (vdims v) -> lookup d dfs = None) ->
-  exists v', In v' (fvars r) /\ vname v' = vname v /\ vdims v' = vdims v /\ vint v' = vint v
-             /\ sh (vdat v') = sh (vdat v)
-             /\ forall i, at_ (vdat v') i = cast (vint v) (at_ (vdat v) i).
+  In v (fvars r).
 Proof.
   unfold impl_apply. intros H Hin Hd.
   destruct (dimlens f dfs) as [nl|]; try discriminate.
   destruct (map_res _ (fvars f)) as [vs|] eqn:E; try discriminate. injection H as <-.
   destruct (map_res_in _ _ _ _ E Hin) as [v' [H1 H2]].
-  exists v'; split; auto.
   unfold out_var in H1. rewrite impl_vals_unnamed in H1 by auto.
   destruct (target_shape _ (vdims v)); try discriminate.
   destruct (list_eqb Nat.eqb (sh (vdat v)) l); try discriminate.
-  injection H1 as <-. simpl. repeat split; auto.
+  injection H1 as <-. simpl. destruct v; exact H2.
 Qed.
 
 (* ---- the result is shape-consistent with its new dimensions ---------------------------- *)
@@ -201,50 +189,19 @@ Qed.
 Lemma newlen_reducer fd l : In fd [RSum; RProd; RMin; RMax; RMean] -> newlen fd l = Ok 1%nat.
 Proof. simpl. intros [<-|[<-|[<-|[<-|[<-|[]]]]]]; reflexivity. Qed.
 
-(* ---- values: float variables satisfy the axis-wise specification ------------------------- *)
-Lemma to_flat_map_cells_id (a : farr cell) g :
-  (forall c, g c = c) -> to_flat (map_cells g a) = to_flat a.
-Proof. intros H. unfold to_flat, map_cells; simpl. apply map_ext. intros; apply H. Qed.
-
-Theorem float_vars_axiswise f dfs r v :
-  impl_apply f dfs = Ok r -> In v (fvars f) -> vint v = false ->
-  exists v', In v' (fvars r) /\ vname v' = vname v /\ vdims v' = vdims v
-             /\ to_flat (vdat v') = to_flat (seq_apply dfs v (named_axes dfs v))
-             /\ sh (vdat v') = sh (seq_apply dfs v (named_axes dfs v))
-             /\ spec_var_ok dfs v (sh (vdat v')) (to_flat (vdat v')) = true.
-Proof.
-  unfold impl_apply. intros H Hin Hf.
-  destruct (dimlens f dfs) as [nl|]; try discriminate.
-  destruct (map_res _ (fvars f)) as [vs|] eqn:E; try discriminate. injection H as <-.
-  destruct (map_res_in _ _ _ _ E Hin) as [v' [H1 H2]].
-  exists v'; split; auto.
-  unfold out_var in H1.
-  destruct (target_shape _ (vdims v)); try discriminate.
-  destruct (list_eqb Nat.eqb (sh (impl_vals dfs v)) l); try discriminate.
-  injection H1 as <-. simpl. rewrite Hf.
-  rewrite to_flat_map_cells_id by apply cast_float.
-  rewrite impl_vals_named.
-  repeat split; auto.
-  unfold spec_var_ok. apply existsb_exists. exists (named_axes dfs v). split; [apply perms_self|].
-  rewrite list_eqb_refl by apply Nat.eqb_refl. rewrite cells_close_refl. reflexivity.
-Qed.
-
-(* every variable: the stored cells are the dtype cast of the axis-wise composition *)
-Theorem all_vars_cast_axiswise f dfs r v :
+(* ---- values: every variable is exactly the axis-wise composition ---------------------------- *)
+Theorem all_vars_axiswise f dfs r v :
   impl_apply f dfs = Ok r -> In v (fvars f) ->
-  exists v', In v' (fvars r) /\ vname v' = vname v /\ vdims v' = vdims v
-             /\ sh (vdat v') = sh (seq_apply dfs v (named_axes dfs v))
-             /\ forall i, at_ (vdat v') i = cast (vint v) (at_ (seq_apply dfs v (named_axes dfs v)) i).
+  In (Var (vname v) (vdims v) (seq_apply dfs v (named_axes dfs v))) (fvars r).
 Proof.
   unfold impl_apply. intros H Hin.
   destruct (dimlens f dfs) as [nl|]; try discriminate.
   destruct (map_res _ (fvars f)) as [vs|] eqn:E; try discriminate. injection H as <-.
   destruct (map_res_in _ _ _ _ E Hin) as [v' [H1 H2]].
-  exists v'; split; auto.
   unfold out_var in H1.
   destruct (target_shape _ (vdims v)); try discriminate.
   destruct (list_eqb Nat.eqb (sh (impl_vals dfs v)) l); try discriminate.
-  injection H1 as <-. simpl. rewrite impl_vals_named. repeat split; auto.
+  injection H1 as <-. simpl. rewrite <- impl_vals_named. exact H2.
 Qed.
 
 (* ---- the order in which dimensions are named is irrelevant to the code ---------------------- *)
@@ -329,35 +286,30 @@ Proof.
   destruct (H k (or_introl eq_refl)) as [d [H1 H2]]. rewrite H1. unfold step; simpl. rewrite H2. reflexivity.
 Qed.
 
-(* positional form: when every variable is float-typed the whole result satisfies the property *)
-Lemma spec_vars_ok_float dfs nd vs vs' :
-  map_res (out_var dfs nd) vs = Ok vs' -> (forall v, In v vs -> vint v = false) ->
-  spec_vars_ok dfs vs vs' = true.
+(* positional form: the whole result satisfies the property, all dtypes *)
+Lemma spec_vars_ok_all dfs nd vs vs' :
+  map_res (out_var dfs nd) vs = Ok vs' -> spec_vars_ok dfs vs vs' = true.
 Proof.
-  revert vs'; induction vs as [|v vs IH]; simpl; intros vs' H Hf.
+  revert vs'; induction vs as [|v vs IH]; simpl; intros vs' H.
   - injection H as <-. reflexivity.
   - destruct (out_var dfs nd v) as [v'|] eqn:E; try discriminate.
     destruct (map_res _ vs) as [r|] eqn:Er; try discriminate. injection H as <-.
-    rewrite (IH _ eq_refl) by (intros; apply Hf; right; auto).
+    rewrite (IH _ eq_refl).
     unfold out_var in E. destruct (target_shape nd (vdims v)); try discriminate.
     destruct (list_eqb Nat.eqb (sh (impl_vals dfs v)) l); try discriminate.
     injection E as <-. simpl. rewrite Nat.eqb_refl. rewrite list_eqb_refl by apply Nat.eqb_refl.
-    rewrite (Hf v) by (left; auto).
-    rewrite to_flat_map_cells_id by apply cast_float.
     rewrite impl_vals_named. simpl.
     replace (spec_var_ok _ _ _ _) with true; auto. symmetry.
     unfold spec_var_ok. apply existsb_exists. exists (named_axes dfs v). split; [apply perms_self|].
     rewrite list_eqb_refl by apply Nat.eqb_refl. rewrite cells_close_refl. reflexivity.
 Qed.
 
-Theorem float_files_satisfy f dfs r :
-  impl_apply f dfs = Ok r -> (forall v, In v (fvars f) -> vint v = false) ->
-  spec_file_ok dfs f r = true.
+Theorem files_satisfy f dfs r : impl_apply f dfs = Ok r -> spec_file_ok dfs f r = true.
 Proof.
-  unfold impl_apply, spec_file_ok. intros H Hf.
+  unfold impl_apply, spec_file_ok. intros H.
   destruct (dimlens f dfs) as [nl|]; try discriminate.
   destruct (map_res _ (fvars f)) as [vs|] eqn:E; try discriminate. injection H as <-. simpl.
-  eapply spec_vars_ok_float; eauto.
+  eapply spec_vars_ok_all; eauto.
 Qed.
 
 (* ---- sum / prod in the executable Q model are associative-commutative (Leibniz) ------------ *)
